@@ -57,3 +57,54 @@ def _twin_check(sc, tr):
 
 
 t2_tasks(PROP, "twin", [("open_run,custom", "abort", {})], [_twin_check], twin="twin:the engine closes runs with exit_status success only")
+
+
+# ------------------------------------------------------------------------------------------------ T1: run_wrapper's status mapping
+# the wrapper most plans use to close their own runs: exit_status of the control exception, 'fail' + str(e) for any other
+# exception, no status (the engine's own: success) otherwise - proved as a generator contract (C23's bisimulation, re-used)
+from . import C23 as _c23   # noqa: E402
+
+task("run_wrapper", PROP, functions=[f"{_c23.MP}:run_wrapper", f"{_c23.MP}:run_wrapper.except_plan", f"{_c23.MP}:contingency_wrapper",
+                                     f"{_c23.MS}:open_run", f"{_c23.MS}:close_run"],
+     expect=[f"{_c23.MP}:run_wrapper#trace[same calls on the wrapped generators]",
+             f"{_c23.MP}:run_wrapper#outcome[same yield / return / raise at every step]"])(_c23.run_wrapper)
+
+
+# ------------------------------------------------------------------------------------------------ T1: FailedStatus
+SOC = f"{RE}._status_object_completed"
+
+
+@task("status_object_completed", PROP, functions=[SOC],
+      expect=[f"{SOC}#ensures[an unsuccessful status surfaces as FailedStatus(status) chained to the device's exception, stored for the plan and set on the future]",
+              f"{SOC}#ensures[a successful (or pardoned) status completes the future with None and stores nothing]"],
+      covers=["failed status", "successful status", "pardoned failure"])
+def status_object_completed(I):
+    w = I.w
+    success = w.choose([True, False], "status.success")
+    pardoned = w.choose([False, True], "pardon_failures.is_set()")
+    dev_exc = Obj(BUILTIN_CLASSES["ValueError"], {"args": ("device says no",), "__cause__": None}, label="device_exc")
+    log = []
+    ret = Opaque("status", {"token": "status", "truth": True, "isinstance_default": False, "attrs": {"success": success},
+                            "methods": {"exception": lambda I_, o, a, k: dev_exc}})
+    fut = Opaque("fut", {"token": "fut", "truth": True, "isinstance_default": False,
+                         "methods": {"set_exception": lambda I_, o, a, k: log.append(("set_exception", a[0])),
+                                     "set_result": lambda I_, o, a, k: log.append(("set_result", a[0])),
+                                     "exception": lambda I_, o, a, k: log.append(("exception",))}})
+    pardon = Opaque("pardon", {"token": "event", "truth": True, "isinstance_default": False, "methods": {"is_set": lambda I_, o, a, k: pardoned}})
+    before = Opaque("previous", {"token": "exc", "truth": True})
+    me = bare(I, RE, _state_lock=Opaque("lock", {"ctx": "transparent", "isinstance_default": False}), _exception=before)
+    r = catch(I, I.getattr(me, "_status_object_completed"), ret, fut, pardon)
+    rp = {"replay": "lifecycle.failed_status"}
+    w.check(f"{SOC}#raises[nothing]", r[0] == "ok", rp)
+    e = I.getattr(me, "_exception")
+    if not success and not pardoned:
+        w.cover("failed status")
+        fs = I.P.class_info("bluesky.utils", "FailedStatus")
+        ok = isinstance(e, Obj) and e.cls.issubclass(fs) and tuple(e.attrs.get("args", ())) == (ret,) and e.attrs.get("__cause__") is dev_exc
+        sets = [x for x in log if x[0] == "set_exception"]
+        w.check(f"{SOC}#ensures[an unsuccessful status surfaces as FailedStatus(status) chained to the device's exception, stored for the plan and set on the future]",
+                ok and len(sets) == 1 and sets[0][1] is e and not any(x[0] == "set_result" for x in log), rp)
+    else:
+        w.cover("successful status" if success else "pardoned failure")
+        w.check(f"{SOC}#ensures[a successful (or pardoned) status completes the future with None and stores nothing]",
+                e is before and [x for x in log if x[0] != "exception"] == [("set_result", None)], rp)
